@@ -38,6 +38,6 @@ def main(ctx):
     bindir = ctx.harness(GROUP, profile="release", bins=["c22"])
     cases = ctx.gen_exec(bindir, "c22", ctx.n(400, 6000), inputs=ctx.replay_inputs())
     ctx.correspond("plan_cache", GROUP, REQ, cases, show="show22", agree="agree22", prop_ok="prop_ok22",
-                   shard=ctx.n(100, 600), fn_name="Planner.PlanCache.get_cached_plan vs Graph::run (plan cache)")
+                   shard=ctx.n(100, 300), fn_name="Planner.PlanCache.get_cached_plan vs Graph::run (plan cache)")
     if failed and not ctx.violations:
         ctx.proof_broken(failed, "all correspondence cases of this run")
